@@ -81,9 +81,27 @@ def _marathon(rng, focus):
             "script": {"sites": {}, "seed": 0}, "n_steps": 30, "marathon": True, "displacement": 0.01}
 
 
+def _big_mobile(rng, focus):
+    """A mobile molecule of 65..140 atoms (a polymer bead chain, a lipid tail bundle): nothing in the rules of the search
+    depends on the size of the molecule.  Direct drive, few steps."""
+    n_mob = rng.choice([rng.randint(65, 70), rng.randint(71, 140), 128, 129])
+    mob = _mol(rng, "SPC", n_mob, tree=True, p_h=0.0, origin=[0.0, 0.0, 0.0])
+    if rng.random() < 0.5:
+        mob["edges"] = [[i, i + 1] for i in range(n_mob - 1)]          # a plain chain: the restoring walk is as long as it gets
+        pos = np.cumsum(np.array([np.array(gen.unit_vec(rng)) * 0.15 for _ in range(n_mob)]), axis=0)
+        mob["positions"] = pos.tolist()
+    n_fix = rng.randint(n_mob, n_mob + 8)
+    fix = _mol(rng, "SPC", n_fix, tree=False, p_h=0.0, origin=gen.rvec(rng, 1.0))
+    return {"focus": focus, "mode": "direct", "reassign": None, "start": fix, "end": mob, "restraints": [], "deform": rng.choice([[2], [0, 1, 2], [2, 0]]),
+            "auto_guess": None, "ignore_h": False, "steps_factor": 1, "sigma_scale": 0.5, "np_seed": rng.randrange(2 ** 32),
+            "script": {"sites": {}, "seed": 0}, "n_steps": rng.randint(5, 25), "big_mobile": True}
+
+
 def generate(rng, tier, focus):
     if focus == "C09" and rng.random() < (0.0008 if tier == "quick" else 0.0004):
         return _marathon(rng, focus)
+    if focus == "C09" and rng.random() < 0.004:
+        return _big_mobile(rng, focus)
     if rng.random() < (0.015 if tier == "quick" else 0.04):
         name = rng.choice(sorted(SHIPPED_PAIRS))
         try:
@@ -474,6 +492,7 @@ class Watch:
         self.orphan_chi2 = 0         # evaluations inside the loop phase that no recognised iteration accounts for
         self.overdue = False         # a move type was drawn although the budget was already used up
         self.in_accept = False
+        self.bonds = None            # snapshot of the bond table the search was started with
 
     # ---- random seam listener --------------------------------------------------------
     def on_draw(self, site, fname, args, value):
@@ -581,6 +600,18 @@ class Watch:
                     ctx.violate("C09", "atom-move-not-of-held", "the single-atom move was not applied to the held configuration")
                 elif not np.array_equal(mv[1], config):
                     ctx.violate("C09", "atom-move-proposal", "the evaluated proposal is not the output of the single-atom move")
+            # "a bond-preserving single-atom move": on an acyclic molecule every bond of the proposal has the length the table
+            # the search was started with says (whatever produced the proposal)
+            if self.tree_mobile and self.bonds and np.all(np.isfinite(config)):
+                for i_, lst in self.bonds.items():
+                    bad_ = next(((j_, L_) for j_, L_ in lst
+                                 if abs(float(np.linalg.norm(config[i_] - config[j_])) - L_) > 1e-9 * max(abs(L_), 1e-300)), None)
+                    if bad_ is not None:
+                        ctx.violate("C09", "atom-move-not-bond-preserving",
+                                    f"a single-atom proposal has bond {i_}-{bad_[0]} at length "
+                                    f"{float(np.linalg.norm(config[i_] - config[bad_[0]]))!r}; the bond table says {bad_[1]!r} "
+                                    f"({len(config)} atoms)")
+                        break
             else:
                 ctx.probe("atom_move_not_observed")
 
@@ -999,6 +1030,10 @@ def execute(trace, ctx):
             watch.n_steps = int(n_steps)
             watch.sim_type = tuple(sim_type)
             watch.phase = "init"
+            try:
+                watch.bonds = table_snapshot(mol2_bonds_info)
+            except Exception:
+                watch.bonds = None
             if monitored and trace["mode"] == "align":
                 # "restricted to the enabled deformation types": the types the CALLER enabled
                 if deform is not None:
@@ -1055,6 +1090,8 @@ def execute(trace, ctx):
         ctx.probe("other_length_units")
     if trace.get("marathon"):
         ctx.probe("marathon_search_1e5_iterations")
+    if trace.get("big_mobile"):
+        ctx.probe("mobile_molecule_over_64_atoms")
     if outcome == "extra-draw":
         return
     if outcome.startswith("raised"):
